@@ -1251,6 +1251,8 @@ const fn is_keyof_u16(key: &[u8]) -> bool {
     matches!(key, TCP_ENR_KEY | TCP6_ENR_KEY | UDP_ENR_KEY | UDP6_ENR_KEY)
 }
 
+/// Checks that `value` is exactly one RLP item and, for the keys the decoder gives a type to,
+/// that it is of that type, so that a record holding it is accepted again by the decoder.
 fn check_spec_reserved_keys(key: &[u8], mut value: &[u8]) -> Result<(), Error> {
     match key {
         TCP_ENR_KEY | TCP6_ENR_KEY | UDP_ENR_KEY | UDP6_ENR_KEY => {
@@ -1268,14 +1270,19 @@ fn check_spec_reserved_keys(key: &[u8], mut value: &[u8]) -> Result<(), Error> {
         IP6_ENR_KEY => {
             Ipv6Addr::decode(&mut value)?;
         }
-        b"secp256k1" => {
-            #[cfg(all(feature = "k256", not(feature = "rust-secp256k1")))]
-            <Enr<k256::ecdsa::SigningKey>>::decode(&mut value)?;
-            #[cfg(feature = "rust-secp256k1")]
-            <Enr<secp256k1::SecretKey>>::decode(&mut value)?;
+        b"secp256k1" | b"ed25519" => {
+            // public keys are byte strings
+            Header::decode_bytes(&mut value, false)?;
         }
-        _ => return Ok(()),
+        _ => {
+            let header = Header::decode(&mut value)?;
+            value.advance(header.payload_length);
+        }
     };
+    // nothing may follow the item
+    if !value.is_empty() {
+        return Err(Error::InvalidRlpData(DecoderError::UnexpectedLength));
+    }
     Ok(())
 }
 
